@@ -555,6 +555,7 @@ func runC16(t *testing.T, seed uint64, planJSON []byte, tier string) (res *Resul
 		w.CreateUndoLog(atSchema)
 		// the reference server and its bare handle
 		srvB := simdb.NewServer("simdb1", plan.Cfg.ServerVersion)
+		applyServerCfg(srvB, plan.Cfg)
 		srvB.LockWaitTimeout = 5 * time.Second
 		c16DriverSeq++
 		nameB := fmt.Sprintf("simdb-c16-bare-%d", c16DriverSeq)
